@@ -57,6 +57,7 @@ def prepare():
 def tlc_env():
     env = dict(os.environ)
     env["JAVA_TOOL_OPTIONS"] = JAVA_OPTS
+    env["VERIF_GEN"] = os.path.join(WORK, "gen")
     return env
 
 
